@@ -57,10 +57,11 @@ func runTimer(out *TraceWriter, seed int64, from, runs, steps int) {
 				}
 				switch {
 				case op < 3:
-					if rng.Intn(2) == 0 {
+					switch rng.Intn(3) { // a new height, a new view, or the same epoch again (the library re-arms the timer inside a view)
+					case 0:
 						h++
 						v = 0
-					} else {
+					case 1:
 						v++
 					}
 					d := durs[rng.Intn(len(durs))]
